@@ -17,8 +17,8 @@ version that was ever current. Atomic steps:
 Data sets are abstract identifiers (`Nat`); a delta is `(target serial, from data, to data)` and
 merging consecutive deltas yields `(first.from, last.to)` — that the real `PayloadDelta::merge`
 does this is C12, that `delta_since` is correct on wrapped serials is C13; here serials are natural
-numbers and `delta_since` is transcribed statement by statement (front checks, then the scan from
-the oldest delta).
+numbers and `delta_since` is transcribed statement by statement (front checks, the "client has the version
+the oldest delta was made from" shortcut of the C13 repair, then the scan from the oldest delta).
 -/
 namespace RoutinatorModel.ServerSched
 
@@ -136,7 +136,9 @@ def deltaSince (s : State) (c : Nat) : Option (Option (Nat × Nat)) :=
     else if d.target = c then some none
     else if d.target = c + 1 then some (some (d.fromD, d.toD))
     else
-      match skipTo c s.deltas.reverse with
+      -- the client has the version the oldest retained delta was made from: nothing to skip
+      let fromOldest := (s.deltas.getLast?.map (·.target)) == some (c + 1)
+      match (if fromOldest then some s.deltas.reverse else skipTo c s.deltas.reverse) with
       | none => none
       | some rest =>
         match mergeRun rest with
